@@ -127,6 +127,14 @@ func (sc *specCtx) lvalues(e CExpr) (locs []heapLoc, all bool) {
 		if hv, _, _ := vc.ghostHV(sc.pkg, e.Name); hv != "" {
 			return []heapLoc{{hv, "nil"}}, false
 		}
+		// a package-level variable
+		if sc.pkg != nil {
+			if sp := vc.eng.prog.Package(sc.pkg); sp != nil {
+				if g, ok := sp.Members[e.Name].(*ssa.Global); ok {
+					return sc.objLocs(vc.global(g).S, g.Type().(*types.Pointer).Elem()), false
+				}
+			}
+		}
 	case *CCall:
 		switch e.F {
 		case "elems": // elements of a slice
